@@ -22,6 +22,7 @@ import (
 	"github.com/arm-doe/sts"
 	"github.com/arm-doe/sts/log"
 	"github.com/arm-doe/sts/mock"
+	"github.com/arm-doe/sts/store"
 	"github.com/arm-doe/sts/zzverif/gen"
 
 	yaml "gopkg.in/yaml.v2"
@@ -182,6 +183,112 @@ func verifInheritCase(w interface{ WriteString(string) (int, error) }, tmp strin
 	w.WriteString(line.String())
 }
 
+// verifIgnoreCase: a sender with several sources; a later source may give neither include nor ignore (it
+// takes the preceding source's lists) and has its own or inherited tags, some with a method other than
+// http (their patterns become ignore patterns of THAT source's store). Every source is initialised by the
+// real clientApp.init(), in configuration order; then each source's store is asked what it includes / ignores.
+//
+// line: GN nsrc {-1 | ninc {id}* nign {id}*} {-1 | ntags {id nonhttp}*}*nsrc = {ninc {id}* nign {id}*}*nsrc
+//   ids: 1..9 include / ignore patterns, 100 / 101 the standard ignores, 200.. tag patterns
+func verifIgnoreCase(w interface{ WriteString(string) (int, error) }, tmp string, id int, incs, igns [][]int, tags [][][2]int) {
+	root := filepath.Join(tmp, fmt.Sprintf("ign%d", id))
+	os.RemoveAll(root)
+	defer os.RemoveAll(root)
+	pat := func(i int) string {
+		switch {
+		case i == 100:
+			return `\.lck$`
+		case i == 101:
+			return `(?:^|/)\.disabled$`
+		case i >= 200:
+			return fmt.Sprintf("^t%d/", i)
+		case i <= 2:
+			return fmt.Sprintf("^i%d", i)
+		}
+		return fmt.Sprintf(`\.g%d$`, i)
+	}
+	ids := map[string]int{}
+	for i := 1; i <= 9; i++ {
+		ids[pat(i)] = i
+	}
+	ids[pat(100)], ids[pat(101)] = 100, 101
+	var sb strings.Builder
+	fmt.Fprintf(&sb, "dirs:\n  cache : %s\n  logs  : %s\n  out   : %s\nsources:\n", filepath.Join(root, "cache"), filepath.Join(root, "logs"), filepath.Join(root, "out"))
+	var line strings.Builder
+	fmt.Fprintf(&line, "GN %d", len(incs))
+	list := func(l []int) string {
+		var q []string
+		for _, i := range l {
+			q = append(q, "'"+pat(i)+"'")
+		}
+		return "[" + strings.Join(q, ", ") + "]"
+	}
+	for i := range incs {
+		fmt.Fprintf(&sb, "  - name    : s%d\n    out-dir : %s\n    log-dir : %s\n", i, filepath.Join(root, "out", fmt.Sprint("s", i)), filepath.Join(root, "logs", fmt.Sprint("s", i)))
+		if i == 0 {
+			sb.WriteString("    threads : 1\n    target:\n      name      : tgt\n      http-host : localhost:1992\n")
+		}
+		if igns[i] == nil {
+			line.WriteString(" -1")
+		} else {
+			if len(incs[i]) > 0 {
+				fmt.Fprintf(&sb, "    include : %s\n", list(incs[i]))
+			}
+			fmt.Fprintf(&sb, "    ignore  : %s\n", list(igns[i]))
+			fmt.Fprintf(&line, " %d", len(incs[i]))
+			for _, x := range incs[i] {
+				fmt.Fprintf(&line, " %d", x)
+			}
+			fmt.Fprintf(&line, " %d", len(igns[i]))
+			for _, x := range igns[i] {
+				fmt.Fprintf(&line, " %d", x)
+			}
+		}
+		if tags[i] == nil {
+			line.WriteString(" -1")
+			continue
+		}
+		fmt.Fprintf(&line, " %d", len(tags[i]))
+		sb.WriteString("    tags:\n      - pattern  : DEFAULT\n        priority : 0\n        order    : fifo\n        method   : http\n")
+		for j, tg := range tags[i] {
+			ids[pat(tg[0])] = tg[0]
+			m := "http"
+			if tg[1] == 1 {
+				m = "none"
+			}
+			fmt.Fprintf(&sb, "      - pattern  : '%s'\n        priority : %d\n        method   : %s\n", pat(tg[0]), j+1, m)
+			fmt.Fprintf(&line, " %d %d", tg[0], tg[1])
+		}
+	}
+	conf := &sts.ClientConf{}
+	if err := yaml.Unmarshal([]byte(sb.String()), conf); err != nil {
+		panic(err.Error() + "\n" + sb.String())
+	}
+	var apps []*clientApp
+	for _, src := range conf.Sources {
+		app := &clientApp{dirCache: filepath.Join(root, "cache"), conf: src}
+		if err := app.init(); err != nil {
+			panic(err)
+		}
+		defer app.destroy()
+		apps = append(apps, app)
+	}
+	line.WriteString(" =")
+	for _, app := range apps {
+		st := app.broker.Conf.Store.(*store.Local)
+		fmt.Fprintf(&line, " %d", len(st.Include))
+		for _, p := range st.Include {
+			fmt.Fprintf(&line, " %d", ids[p.String()])
+		}
+		fmt.Fprintf(&line, " %d", len(st.Ignore))
+		for _, p := range st.Ignore {
+			fmt.Fprintf(&line, " %d", ids[p.String()])
+		}
+	}
+	line.WriteString("\n")
+	w.WriteString(line.String())
+}
+
 func TestVerifTags(t *testing.T) {
 	w, done, ok := gen.Out()
 	if !ok {
@@ -217,6 +324,53 @@ func TestVerifTags(t *testing.T) {
 				tags = append(tags, tl)
 			}
 			verifInheritCase(w, tmp, i, bins, tags)
+		}
+	}
+	// what each source's store ignores: lists inherited between sources, non-http tags per source
+	{
+		ni := gen.EnvInt("VERIF_IGNORE_N", 60)
+		b0 := gen.New(gen.Seed() ^ 0x16E0)
+		for i := 0; i < ni; i++ {
+			r := b0.Sub(uint64(i))
+			ns := 2 + r.Intn(2)
+			var incs, igns [][]int
+			var tags [][][2]int
+			for k := 0; k < ns; k++ {
+				if k > 0 && r.Chance(1, 2) {
+					incs, igns = append(incs, nil), append(igns, nil)
+				} else {
+					var inc, ign []int
+					for j := 0; j < r.Intn(3); j++ {
+						inc = append(inc, 1+j)
+					}
+					for j := 0; j < 1+r.Intn(5); j++ {
+						ign = append(ign, 3+j)
+					}
+					incs, igns = append(incs, inc), append(igns, ign)
+				}
+				if k > 0 && r.Chance(1, 3) {
+					tags = append(tags, nil)
+					continue
+				}
+				tl := [][2]int{}
+				for j := 0; j < 1+r.Intn(2); j++ {
+					tl = append(tl, [2]int{200 + 10*k + j, r.Intn(2)})
+				}
+				tags = append(tags, tl)
+			}
+			if i < 8 {
+				// directed: 5 or 9 patterns in the first source's lists (what Go's append leaves spare capacity
+				// behind), the second source inherits the lists and has a non-http tag of its own
+				incs, igns = [][]int{{1, 2}, nil}, [][]int{{3, 4, 5}, nil}
+				if i%2 == 1 {
+					igns[0] = []int{3, 4, 5, 6, 7, 8, 9}
+				}
+				tags = [][][2]int{{{200, 1 - i/4}}, {{210, 1}, {211, i / 2 % 2}}}
+				if i >= 6 {
+					incs, igns, tags = append(incs, nil), append(igns, nil), append(tags, [][2]int{{220, 1}})
+				}
+			}
+			verifIgnoreCase(w, tmp, i, incs, igns, tags)
 		}
 	}
 	n := gen.EnvInt("VERIF_N", 150)
